@@ -1,0 +1,24 @@
+//go:build verif
+// +build verif
+
+package lb
+
+// Contracts for the deductive verifier in /verif (govc). Comment-only file.
+
+//@ func (*roundRobinBalancer).PickHost
+//@   prop C06
+//@   requires rrb != nil && rrb.index != nil
+//@   modifies atomu64
+//@   ensures @empty-list len(hosts) == 0 ==> result == nil
+//@   ensures @counter-mod-len len(hosts) > 0 ==> result == hosts[int(atomu64[rrb.index] % uint64(len(hosts)))] && atomu64[rrb.index] == old(atomu64[rrb.index]) + 1
+
+//@ func (*randomBalancer).PickHost
+//@   prop C06
+//@   ensures @empty-list len(hosts) == 0 ==> result == nil
+//@   ensures @member len(hosts) > 0 ==> exists k int :: 0 <= k && k < len(hosts) && result == hosts[k]
+
+//@ func (*leastConnBalancer).PickHost
+//@   prop C06
+//@   requires forall k int :: 0 <= k && k < len(hosts) ==> hosts[k] != nil && hosts[k].Stats != nil
+//@   ensures @empty-list len(hosts) == 0 ==> result == nil
+//@   ensures @member-never-the-strictly-busier-sample len(hosts) > 0 ==> exists j int, k int :: 0 <= j && j < len(hosts) && 0 <= k && k < len(hosts) && (result == hosts[j] || result == hosts[k]) && lcsample1 == hosts[j] && lcsample2 == hosts[k] && (result == lcsample1 ==> lccount1 < lccount2) && (result == lcsample2 ==> lccount2 <= lccount1)
